@@ -436,21 +436,33 @@ class Run:
         else:
             st['exp_secs'] = parent_secs
         self.sts[R['id']] = st
-        rout = self.stm.Routine(self.make_body(R, st))
+        # every way the library offers to start a routine "now" (quant 0 on
+        # tempo clocks: no quantisation): sched(0), play, Routine.run, the
+        # routine.run decorator, with the quant spelled 0, Quant(0) or (0, 0)
+        self.live += 1
+        body = self.make_body(R, st)
+        form = R['id'] % 6
+        if R['clock'] >= 0:
+            q = [0, self.clk.Quant(0), (0, 0)][(R['id'] // 6) % 3]
+            if form in (0, 1):
+                rout = self.stm.Routine(body)
+                clock.sched(0, rout) if form else rout.play(clock, q)
+            elif form in (2, 3):
+                rout = self.stm.Routine.run(body, clock, q)
+            else:
+                rout = self.stm.routine.run(clock, q)(body)
+        else:
+            if form in (0, 1):
+                rout = self.stm.Routine(body)
+                clock.sched(0, rout) if form else rout.play(clock)
+            elif form in (2, 3):
+                rout = self.stm.Routine.run(body, clock)
+            else:
+                rout = self.stm.routine.run(clock)(body)
         st['rout'] = rout
         if R.get('seed') is not None:
-            rout.rand_seed = R['seed']
+            rout.rand_seed = R['seed']       # (before its first wake-up)
         self.routines[R['id']] = rout
-        self.live += 1
-        if R['clock'] >= 0:
-            if R['id'] % 2:
-                clock.sched(0, rout)            # relative to the current logical beat
-            else:
-                rout.play(clock, 0)             # quant 0: no quantisation
-        elif R['id'] % 3 == 0:
-            clock.sched(0, rout)
-        else:
-            rout.play(clock)
         return rout
 
     def make_body(self, R, st):
